@@ -285,6 +285,22 @@ func pairPar1UTF16(w *World, r *Report) {
 		} else {
 			r.bad("PAIR", key, w.pos(fn.Pos()), "names are not converted with "+p.callee+": characters outside the BMP need surrogate pairs in UTF-16")
 		}
+		// ... on every path: no return of the helper is reachable without passing the conversion
+		for _, c := range callsIn(fn, p.callee) {
+			for _, b := range fn.Blocks {
+				ret, isRet := b.Instrs[len(b.Instrs)-1].(*ssa.Return)
+				if !isRet || c.Parent() != fn || b == c.Block() || c.Block().Dominates(b) {
+					continue
+				}
+				if len(ret.Results) == 1 {
+					if _, isConst := ret.Results[0].(*ssa.Const); isConst {
+						continue // the empty name of an empty input
+					}
+				}
+				r.bad("PAIR", key+":every-path", w.ipos(ret), "this return of the name conversion is reachable without passing through "+p.callee+": some names are converted by hand (a shortcut for 'plain' names treats code units as bytes or runes)")
+			}
+			break
+		}
 	}
 	// buffer sizes: 2 bytes per UTF-16 code unit (not per rune), code units = bytes/2
 	if fn := w.Fn("par1.encodeUTF16LEString"); fn != nil {
